@@ -389,6 +389,71 @@ func sameAddr(a, b ssa.Value) bool {
 	return false
 }
 
+// justDelegation: a method that calls itself only through a field F of its own receiver (a wrapper delegating to the object
+// it wraps, reached through an interface). F is assigned, in the whole module, only (a) while the object that holds it is
+// being built — a store into a freshly allocated object of a value that does not come from that object — or (b) with nil.
+// An object's F therefore always designates an object that existed before it: the chain of F links is acyclic and the
+// recursion depth is the finite nesting depth of the wrappers.
+func justDelegation(p *Prog, s *scc) (string, bool) {
+	if len(s.fns) != 1 {
+		return "", false
+	}
+	fn := s.fns[0]
+	if fn.Signature.Recv() == nil || len(fn.Params) == 0 {
+		return "", false
+	}
+	recv := fn.Params[0]
+	var fld *types.Var
+	for _, site := range internalSites(s, fn) {
+		c := site.Common()
+		var rv ssa.Value
+		if c.IsInvoke() {
+			rv = c.Value
+		} else if len(c.Args) > 0 {
+			rv = c.Args[0]
+		}
+		ld, ok := rv.(*ssa.UnOp)
+		if !ok || ld.Op != token.MUL {
+			return "", false
+		}
+		fa, ok := ld.X.(*ssa.FieldAddr)
+		if !ok || fa.X != ssa.Value(recv) {
+			return "", false
+		}
+		f := fieldOf(fa)
+		if f == nil || fld != nil && fld != f {
+			return "", false
+		}
+		fld = f
+	}
+	if fld == nil {
+		return "", false
+	}
+	for _, g := range p.ModFns() {
+		for _, b := range g.Blocks {
+			for _, in := range b.Instrs {
+				st, ok := in.(*ssa.Store)
+				if !ok || fieldOf(st.Addr) != fld {
+					continue
+				}
+				if c, isC := st.Val.(*ssa.Const); isC && c.Value == nil {
+					continue
+				}
+				fa := st.Addr.(*ssa.FieldAddr)
+				al, isAlloc := fa.X.(*ssa.Alloc)
+				if !isAlloc {
+					return "", false
+				}
+				// the stored value must not come from the object being built
+				if derivesFrom(st.Val, func(v ssa.Value) bool { return v == ssa.Value(al) }, 0) {
+					return "", false
+				}
+			}
+		}
+	}
+	return fmt.Sprintf("delegation through the field %s of the receiver, which is only assigned while its object is built (to an object that already exists) or with nil: the chain of wrappers is acyclic and finite", fld.Name()), true
+}
+
 // justConsumeMarker: linear self recursion (single site, not in a loop); the datum that selects the next
 // activation is a field M of an element addressed from parameters; it is zeroed on every path to the call, and
 // the call is unreachable from the "== 0" edge of a test of a value loaded from that same location.
@@ -671,7 +736,7 @@ func ruleRecFiltered(p *Prog, r *Report, floor int, extra map[string]recJust, on
 	}
 	r.Floor(rule, len(sccs), floor)
 	r.Count("recursive_sccs", len(sccs))
-	justs := []recJust{justDepthParam, justDepthField, justConsumeMarker, justProgressCall, justProgressField, justOffsetOutOfGuard, justMapImageOutsideDomain, justDecomposition}
+	justs := []recJust{justDepthParam, justDepthField, justConsumeMarker, justProgressCall, justProgressField, justOffsetOutOfGuard, justMapImageOutsideDomain, justDecomposition, justDelegation}
 	for _, s := range sccs {
 		key := s.name
 		r.Instance(rule, key)
@@ -765,6 +830,81 @@ func workBudget(p *Prog, s *scc) (string, bool) {
 			}
 			if okAll {
 				return fmt.Sprintf("work budget: %s decrements %s on every path to its recursive calls, never restores it, and the calls are unreachable once it is exhausted", p.FnName(g), f.Name()), true
+			}
+		}
+	}
+	// the budget may also be an integer behind a pointer PARAMETER that every internal call passes on unchanged
+	for _, g := range s.fns {
+		sites := internalSites(s, g)
+		if len(sites) == 0 || !acyclicWithout(s, g) || len(s.fns) != 1 {
+			continue
+		}
+		for pi, prm := range g.Params {
+			pt, ok := prm.Type().Underlying().(*types.Pointer)
+			if !ok {
+				continue
+			}
+			if b, ok := pt.Elem().Underlying().(*types.Basic); !ok || b.Info()&types.IsInteger == 0 {
+				continue
+			}
+			isLoad := func(v ssa.Value) bool {
+				u, ok := stripConv(v).(*ssa.UnOp)
+				return ok && u.Op == token.MUL && u.X == ssa.Value(prm)
+			}
+			step := func(in ssa.Instruction) int {
+				st, ok := in.(*ssa.Store)
+				if !ok || st.Addr != ssa.Value(prm) {
+					return 0
+				}
+				bo, ok := stripConv(st.Val).(*ssa.BinOp)
+				if !ok {
+					return 2 // any other store: not a pure budget
+				}
+				if c, ok := intConst(bo.Y); ok && c > 0 && isLoad(bo.X) {
+					switch bo.Op {
+					case token.SUB:
+						return -1
+					case token.ADD:
+						return 1
+					}
+				}
+				return 2
+			}
+			okAll := true
+			for _, site := range sites {
+				// passed on unchanged
+				args := site.Common().Args
+				if pi >= len(args) || args[pi] != ssa.Value(prm) {
+					okAll = false
+					break
+				}
+				ok, _ := mustPrecede(p, g, site, func(in ssa.Instruction) bool { return step(in) == -1 }, nil)
+				if !ok {
+					okAll = false
+					break
+				}
+			}
+			if !okAll {
+				continue
+			}
+			for _, b := range g.Blocks {
+				for _, in := range b.Instrs {
+					if st := step(in); st > 0 {
+						okAll = false
+					}
+				}
+			}
+			if !okAll {
+				continue
+			}
+			gs := counterGuards(g, isLoad, true)
+			for _, site := range sites {
+				if !guardedByAny(p, g, site, gs) {
+					okAll = false
+				}
+			}
+			if okAll {
+				return fmt.Sprintf("work budget: %s decrements the integer behind its parameter %s on every path to its recursive calls, passes the same pointer on, never restores it, and the calls are unreachable once it is exhausted", p.FnName(g), prm.Name()), true
 			}
 		}
 	}
